@@ -31,6 +31,7 @@ func c16(c *Ctx) {
 	c16R6(c)
 	c16R7(c)
 	c16R8(c)
+	c16R9(c)
 }
 
 func c16R1(c *Ctx) {
